@@ -960,6 +960,8 @@ def explore_level(item):
         o1 = probe_obs(sh, tuple(p1), n1, item.get("nest", True))
         o2 = probe_obs(sh, tuple(p2), n2, item.get("nest", True))
         res.add("merge_probes")
+        if o1 is None or o2 is None:
+            continue
         if o1 != o2:
             res.violation("merge-unsound", f"shape {sh['name']}: histories {p1} and {p2} were merged but behave differently: {o1} vs {o2}", dict(engine="sm", shape=sh, p1=list(p1), p2=list(p2)))
     return dict(res=res.to_dict(), found=found, shape=sh["name"], first=tuple(item["prefixes"][0]) if item["prefixes"] else ())
@@ -1048,6 +1050,8 @@ def probe_obs(sh, prefix, nops_prefix=None, nest=True):
     out = []
     if nops_prefix is None:
         nops_prefix = _count_ops(sh, prefix, nest)
+        if nops_prefix is None:
+            return None
     for probe in PROBES:
         out.append(_run_with_tail(sh, prefix, nops_prefix, probe, nest))
     return out
@@ -1060,9 +1064,12 @@ def _count_ops(sh, prefix, nest=True):
     # cheap way: replay increasing op counts until all prefix choices are consumed
     while True:
         ch = core.Chooser(prefix)
-        ex = run_execution(sh, ch, n, None, nest=nest)
+        # want=set(): never cut at a disagreement with the model (a probe observes the implementation only)
+        ex = run_execution(sh, ch, n, None, nest=nest, want=set())
         if ch.i >= len(prefix):
             return n
+        if ex.err is not None and ex.err[0] == "crash":
+            return None  # the library raised inside the prefix: reported by the exploration itself, nothing to probe
         n += 1
         if n > 40:
             raise core.HarnessError("cannot locate op boundary of prefix")
@@ -1088,7 +1095,7 @@ def _run_with_tail(sh, prefix, nops_prefix, tail_ops, nest=True):
                 return c
             return super().choose(n, label, dev)
     ch = TailChooser(prefix, idx)
-    ex = run_execution(sh, ch, nops_prefix + len(tail_ops), None, nest=nest)
+    ex = run_execution(sh, ch, nops_prefix + len(tail_ops), None, nest=nest, want=set())
     obs = []
     for st in ex.trace[nops_prefix:]:
         calls = [(e[1], e[3].get("initial_call")) for e in st["real"]["events"] if e[0] == "call"]
